@@ -139,6 +139,33 @@ Example dist_getitem_example :
 Proof. repeat split; vm_compute; reflexivity. Qed.
 
 (* ---- numeric side: the hypotheses of the real-number theorems are satisfiable ------------------- *)
+(* repair_ok (hypothesis of canonicalize_valid / replace_valid) is satisfiable: two occasions sharing one
+   symbolic block, an oracle that rejects covariances above 1 and repairs to 3*I *)
+Definition Vsh : list (list id) := [[21%positive; 22%positive]; [22%positive; 23%positive]].
+Definition rsh : coll id :=
+  [Joint [va; vb] L_IOV [1%positive; 1%positive] Vsh; Joint [vc; vd] L_IOV [1%positive; 1%positive] Vsh;
+   Normal ve L_IIV 1%positive 23%positive].
+Definition toy_psd (A : list (list Q)) : bool := Qle_bool (fget Q 0%Q A 0 1) 1%Q.
+Definition toy_repair (A : list (list Q)) : list (list Q) := [[3%Q; 0%Q]; [0%Q; 3%Q]].
+Definition toy_w (x : id) : Q := if Pos.eqb x 22 then 0%Q else 3%Q.
+Definition psh : params Q := [(21%positive, 1%Q); (22%positive, 5%Q); (23%positive, 2%Q)].
+
+Example repair_ok_nonvacuous :
+  repair_ok Q 0%Q toy_psd toy_repair psh rsh toy_w /\ validate Q 0%Q toy_psd psh rsh = false /\
+  validate Q 0%Q toy_psd (canonicalize Q 0%Q toy_psd toy_repair psh rsh) rsh = true.
+Proof.
+  split; [|split; vm_compute; reflexivity].
+  assert (HV : forall V, In V (joint_blocks rsh) -> V = Vsh) by (intros V [<-|[<-|[]]]; reflexivity).
+  assert (Hij : forall i j, i < 2 -> j < 2 -> (i = 0 \/ i = 1) /\ (j = 0 \/ j = 1)) by (intros; lia).
+  unfold repair_ok. split; [|split; [|split; [|split; [|split]]]].
+  - intros A _. reflexivity.
+  - intros V H row Hr. rewrite (HV V H) in *. destruct Hr as [<-|[<-|[]]]; reflexivity.
+  - intros V i j H Hi Hj. rewrite (HV V H) in *. destruct (Hij i j Hi Hj) as [[->| ->] [->| ->]]; reflexivity.
+  - intros V H _. rewrite (HV V H). split; [reflexivity|]. intros row Hr. destruct Hr as [<-|[<-|[]]]; reflexivity.
+  - intros V i j H _ Hi Hj. rewrite (HV V H) in *. destruct (Hij i j Hi Hj) as [[->| ->] [->| ->]]; reflexivity.
+  - intros V i j H Hp. rewrite (HV V H) in Hp. vm_compute in Hp. discriminate.
+Qed.
+
 Local Open Scope R_scope.
 (* positive diagonal, a negative and a zero covariance *)
 Definition S3 : list (list R) := [[4; -1; 0]; [-1; 9; 2]; [0; 2; 1]].
@@ -172,3 +199,31 @@ Qed.
 Example theta_ucp_nonvacuous : (0 < 1 /\ 1 < 10) /\ (-1000000 < 0 /\ 0 < 1000000).
 Proof. lra. Qed.
 
+
+(* sdcorr_collection_inverse: two occasions sharing one symbolic block and a NormalDistribution sharing a
+   variance symbol; input values 4, 0, 9; every symbol is written with one value (2, 0, 3) *)
+Definition pshR : params R := [(21%positive, 4); (22%positive, 0); (23%positive, 9)].
+Definition wR (x : id) : R := if Pos.eqb x 21 then 2 else if Pos.eqb x 23 then 3 else 0.
+Lemma sqrt4 : sqrt 4 = 2. Proof. replace 4 with (2 * 2) by lra. apply sqrt_square. lra. Qed.
+Lemma sqrt9 : sqrt 9 = 3. Proof. replace 9 with (3 * 3) by lra. apply sqrt_square. lra. Qed.
+Lemma ris0_0 : ris0 0 = true. Proof. unfold ris0. destruct (Req_EM_T 0 0); [reflexivity | contradiction]. Qed.
+
+Example sdcorr_collection_nonvacuous :
+  (forall ns l mu V i j, In (Joint ns l mu V) rsh -> (i < length V)%nat -> (j < vcols V)%nat ->
+     fget R 0 (sdcorr_block R 0 Rmult Rdiv sqrt ris0 (msubs R 0 pshR V)) i j = wR (nth j (nth i V []) 1%positive)) /\
+  (forall n l m v, In (Normal n l m v) rsh -> sqrt (pget R 0 pshR v) = wR v) /\
+  (forall k, (k < length Vsh)%nat -> 0 < pget R 0 pshR (nth k (nth k Vsh []) 1%positive)).
+Proof.
+  split; [|split].
+  - intros ns l mu V i j HIn Hi Hj.
+    assert (V = Vsh) as -> by (destruct HIn as [H|[H|[H|[]]]]; inversion H; reflexivity).
+    cbn in Hi, Hj. unfold sdcorr_block. cbn [length msubs map Vsh].
+    rewrite rget_rtab by assumption.
+    assert ((i = 0 \/ i = 1) /\ (j = 0 \/ j = 1))%nat as [[->| ->] [->| ->]] by lia; cbn [Nat.eqb].
+    + unfold fget, wR. cbn. apply sqrt4.
+    + rewrite rget_cov2corr by (cbn; lia). unfold fget at 1. cbn [nth pget pshR Pos.eqb]. rewrite ris0_0. reflexivity.
+    + rewrite rget_cov2corr by (cbn; lia). unfold fget at 1. cbn [nth pget pshR Pos.eqb]. rewrite ris0_0. reflexivity.
+    + unfold fget, wR. cbn. apply sqrt9.
+  - intros n l m v [H|[H|[H|[]]]]; inversion H; subst. unfold wR. cbn. apply sqrt9.
+  - intros k Hk. cbn in Hk. assert (k = 0 \/ k = 1)%nat as [->| ->] by lia; cbn; lra.
+Qed.
